@@ -19,7 +19,8 @@ type c15Case struct {
 }
 
 var c15Domains = []string{"example.org", "sub.example.org", "example.com", "google.*", "example.*", "a.com", "b.a.com", "kobe.jp", "x.kobe.jp", "github.io", "me.github.io", "org", "localhost",
-	"ample.org", "notexample.org", "le.com", "ithub.io"} // textual suffixes / extensions of other entries that do not sit on a label boundary
+	"ample.org", "notexample.org", "le.com", "ithub.io",
+	"cafe.de", "www.example.org", "www.a.com"} // textual suffixes / extensions of other entries that do not sit on a label boundary
 var c15Selectors = func() []string {
 	sel := []string{".a", ".b", "#c", "div[x=\"1\"]", ".banner > a", "#c"}
 	// selectors with equal FastHash
@@ -34,7 +35,7 @@ var c15Selectors = func() []string {
 
 func c15HostsFor(lines []string) []string {
 	hosts := []string{"example.org", "sub.example.org", "x.sub.example.org", "example.com", "google.co.uk", "www.google.com", "notexample.org",
-		"a.com", "b.a.com", "c.b.a.com", "zzz.net", "x.google.y.notgoogle.com", "example.kobe.jp", "google.github.io", "example.local", "me.github.io", "localhost", "sub.localhost", "org", "example.org.", "sub..example.org", ".a.com", "ample.org", "x.ample.org", "le.com"}
+		"a.com", "b.a.com", "c.b.a.com", "zzz.net", "x.google.y.notgoogle.com", "example.kobe.jp", "google.github.io", "example.local", "me.github.io", "localhost", "sub.localhost", "org", "example.org.", "sub..example.org", ".a.com", "ample.org", "x.ample.org", "le.com", "feed.cafe.de", "a1.cafe.de", "dead.beef.cafe.de", "cafe.de", "www.example.org", "www.a.com", "x.www.example.org"}
 	return hosts
 }
 
